@@ -62,7 +62,33 @@ def takeWords : Nat → List Nat → Option (List Nat × List Nat)
       | none => none
       | some (t, r') => some (x :: t, r')
 
-/-- `deserialize(bytes, size, seed)`; the sketch's Float registers are rebuilt from the returned bit patterns by the caller -/
+/-- the two HIP registers -/
+def takeHip (bs : List Nat) : Option (HipBits × List Nat) := do
+  let (kx, r1) ← takeLe 8 bs
+  let (hp, r2) ← takeLe 8 r1
+  pure (⟨kx, hp⟩, r2)
+
+/-- the variable part of the image after the 8 fixed bytes: (C, table_num_entries, HIP bits, window words, table words, rest) -/
+def readBody (hasHip hasTable hasWindow : Bool) (rest : List Nat) :
+    Option (Nat × Nat × HipBits × List Nat × List Nat × List Nat) :=
+  if hasTable || hasWindow then do
+    let (c, r1) ← takeLe 4 rest
+    let (ne, hb1, r2) ← (if hasTable && hasWindow then do
+        let (ne, q) ← takeLe 4 r1
+        if hasHip then do
+          let (hb, q') ← takeHip q
+          pure (ne, hb, q')
+        else pure (ne, (⟨0, 0⟩ : HipBits), q)
+      else pure (0, (⟨0, 0⟩ : HipBits), r1))
+    let (tw, r3) ← (if hasTable then takeLe 4 r2 else pure (0, r2))
+    let (ww, r4) ← (if hasWindow then takeLe 4 r3 else pure (0, r3))
+    let (hb, r5) ← (if hasHip && !(hasTable && hasWindow) then takeHip r4 else pure (hb1, r4))
+    let (wwords, r6) ← takeWords ww r5
+    let (twords, r7) ← takeWords tw r6
+    pure (c, (if hasWindow then ne else c), hb, wwords, twords, r7)
+  else pure (0, 0, ⟨0, 0⟩, [], [], rest)
+
+/-- `deserialize(bytes, size, seed)`; the sketch's Float registers are rebuilt from the returned bit patterns by `ofBits` -/
 def deserializeCore (W : WireConsts) (C : CompTables) (seedHash : Nat) (bytes : List Nat)
     (ofBits : Nat → Float) : Option (Sketch × HipBits) :=
   match bytes with
@@ -71,57 +97,7 @@ def deserializeCore (W : WireConsts) (C : CompTables) (seedHash : Nat) (bytes : 
     let hasTable := flags.testBit W.flagTable
     let hasWindow := flags.testBit W.flagWindow
     if bytes.length < 4 * pre then none else
-    -- read the variable part
-    let r : Option (Nat × Nat × HipBits × List Nat × List Nat × List Nat) :=
-      if hasTable || hasWindow then
-        match takeLe 4 rest with
-        | none => none
-        | some (c, r1) =>
-          let step2 : Option (Nat × HipBits × List Nat) :=
-            if hasTable && hasWindow then
-              match takeLe 4 r1 with
-              | none => none
-              | some (ne, r2) =>
-                if hasHip then
-                  match takeLe 8 r2 with
-                  | none => none
-                  | some (kx, r3) => match takeLe 8 r3 with
-                    | none => none
-                    | some (hp, r4) => some (ne, ⟨kx, hp⟩, r4)
-                else some (ne, ⟨0, 0⟩, r2)
-            else some (0, ⟨0, 0⟩, r1)
-          match step2 with
-          | none => none
-          | some (ne, hb, r2) =>
-            let step3 : Option (Nat × List Nat) := if hasTable then takeLe 4 r2 else some (0, r2)
-            match step3 with
-            | none => none
-            | some (tw, r3) =>
-              let step4 : Option (Nat × List Nat) := if hasWindow then takeLe 4 r3 else some (0, r3)
-              match step4 with
-              | none => none
-              | some (ww, r4) =>
-                let step5 : Option (HipBits × List Nat) :=
-                  if hasHip && !(hasTable && hasWindow) then
-                    match takeLe 8 r4 with
-                    | none => none
-                    | some (kx, r5) => match takeLe 8 r5 with
-                      | none => none
-                      | some (hp, r6) => some (⟨kx, hp⟩, r6)
-                  else some (hb, r4)
-                match step5 with
-                | none => none
-                | some (hb, r5) =>
-                  match takeWords ww r5 with
-                  | none => none
-                  | some (wwords, r6) =>
-                    match takeWords tw r6 with
-                    | none => none
-                    | some (twords, r7) =>
-                      let ne := if hasWindow then ne else c
-                      some (c, ne, hb, wwords, twords, r7)
-      else some (0, 0, ⟨0, 0⟩, [], [], rest)
-    match r with
+    match readBody hasHip hasTable hasWindow rest with
     | none => none
     | some (c, ne, hb, wwords, twords, tail) =>
       if !tail.isEmpty then none else
